@@ -32,6 +32,10 @@ T = 4
 GROWS = 128
 NCONST = 5  # constants 0..4 in the pool
 IDX_OPS = ["addi", "muli", "remui", "addi", "subi", "divui"]
+# Rare input features, each behind one switch (all of them are inside the property's statement; each one currently hits a known
+# finding, see props/C15.py K_*): code after the loop that reads an L1 buffer; linalg outs that the body reads (accumulation);
+# an index value passed to a kernel as a scalar operand.
+VARIANTS = dict(post=True, rw=True, scalar=True)
 
 
 class BadRecipe(Exception):
@@ -375,13 +379,13 @@ def loop_recipe(draw, tier="quick"):
             ins = [pick(src_default)]
             if rare(3):
                 ins.append(pick(None, side_ro))  # a second, read-only input (weights)
-            if kind == "gen" and rare(29):
+            if kind == "gen" and VARIANTS["scalar"] and rare(29):
                 ins.append(["x", draw(st.sampled_from([0] + list(range(1 + NCONST, npool))))])  # index-dependent scalar
             outs = [pick(dst_default)]
             if rare(6):
                 outs.append(pick(None, side_ro))
             if kind == "gen":
-                ops.append(["gen", ins, outs, rare(11)])
+                ops.append(["gen", ins, outs, VARIANTS["rw"] and rare(11)])
             else:
                 ops.append(["dart", ins, outs])
         if rare(3):
@@ -396,7 +400,7 @@ def loop_recipe(draw, tier="quick"):
                 ops.reverse()
         stages.append(ops)
     post = []
-    if rare(9):
+    if VARIANTS["post"] and rare(9):
         srcs = [o for o in pool if o[0] == "b"]
         dsts = [o for o in pool if o[0] == "a"]
         if srcs and dsts:
